@@ -293,9 +293,23 @@ def replay(ob):
     pz[1, 2] -= 1.4
     bn.set_positions(pz)
     layers.append(("buckled BN, extent 2.8 A", bn))
+    si = graphene("C2", a=3.8, vacuum=6)
+    pz = si.get_positions()
+    pz[0, 2] += 1.4
+    pz[1, 2] -= 1.4
+    si.set_positions(pz)
+    layers.append(("buckled honeycomb of one species, extent 2.8 A", si))
     layers.append(("oblique m layer", oblique(["Ge", "Ge", "S", "S", "Sn"], [(0.1, 0.2), (0.1, 0.2), (0.4, 0.3), (0.4, 0.3), (0.7, 0.6)], [0.35, -0.35, -0.9, 0.9, 0.0])))
     for name, lay in layers:
         ref = None
+        # reference for the symmetry of the sheet: the same sheet as a 3D crystal with 25 A of vacuum (no symmetry can relate sheets that far apart)
+        try:
+            b3 = lay.copy()
+            b3.center(vacuum=12.5, axis=2)
+            b3.set_pbc(True)
+            sg3 = int(SymmetryAnalyzer(b3, symmetry_tol=0.1).get_space_group_number())
+        except Exception:
+            sg3 = None
         for vac, perm, rep_ in itertools.product((5.0, 9.0), ((0, 1, 2), (2, 0, 1), (0, 2, 1)), ((1, 1, 1), (2, 1, 1))):
             at = lay.copy()
             at.center(vacuum=vac, axis=2)
@@ -321,6 +335,8 @@ def replay(ob):
                     thick = np.linalg.norm(conv.get_cell()[2])
                     if abs(thick - max(ext, mt)) > 1e-3:
                         bad.append("thickness %.4f, expected max(%.4f, %.1f)" % (thick, ext, mt))
+                    if sg3 is not None and int(a.get_space_group_number()) != sg3:
+                        bad.append("space group %d, the isolated sheet has %d" % (int(a.get_space_group_number()), sg3))
                     key = (a.get_material_id(), int(a.get_space_group_number()), tuple(sorted((s.wyckoff_letter, s.element, len(s.indices)) for s in a.get_wyckoff_sets_conventional(False))),
                            tuple(np.round(sorted(conv.cell.lengths()[:2]), 3)))
                     if ref is None:
